@@ -85,7 +85,7 @@ func runC08(h *Harness) {
 	}
 	inForce := 0
 	if p := loc.Pattern(n); p != "v1" {
-		h.Violation("C08.b-pattern", "after-first-load:"+patClass(p), "after the first load the probe pattern is %s, expected v1", p)
+		h.Violation("C08.b-pattern", "after-first-load", "after the first load the probe pattern is %s, expected v1", p)
 		return
 	}
 	var history []string
@@ -256,7 +256,7 @@ func runC08(h *Harness) {
 		_ = info
 		switch res {
 		case porcupine.Illegal:
-			h.Violation("C08.a-linearizable", "round:"+outcomeClass(outcome)+":"+backend, "verdicts of round %d (%s, in force v%d, delivered v%d acceptable=%v) admit no atomic explanation: %s", r+1, outcome, inForce+1, next+1, target >= 0, c08Describe(ops))
+			h.Violation("C08.a-linearizable", "nonatomic", "verdicts of round %d (%s, in force v%d, delivered v%d acceptable=%v) admit no atomic explanation: %s", r+1, outcome, inForce+1, next+1, target >= 0, c08Describe(ops))
 		case porcupine.Unknown:
 			h.Probe("porcupine-unknown")
 		}
@@ -271,10 +271,10 @@ func runC08(h *Harness) {
 		case p == okNew && target >= 0:
 			inForce = next
 		case p == okNew && target < 0:
-			h.Violation("C08.c-failed-refresh-kept", "unacceptable-in-force:"+outcomeClass(outcome)+":"+backend, "round %d: refresh outcome %s must not change the list in force, but probes now answer from %s", r+1, outcome, p)
+			h.Violation("C08.c-failed-refresh-kept", "unacceptable-in-force", "round %d: refresh outcome %s must not change the list in force, but probes now answer from %s", r+1, outcome, p)
 			inForce = next
 		default:
-			h.Violation("C08.c-failed-refresh-kept", "pattern:"+patClass(p)+":"+outcomeClass(outcome)+":"+backend, "round %d (%s): probe pattern after the refresh is %s; expected exactly %s%s", r+1, outcome, p, okOld, map[bool]string{true: " or " + okNew, false: ""}[target >= 0])
+			h.Violation("C08.c-failed-refresh-kept", "pattern:"+patClass(p), "round %d (%s): probe pattern after the refresh is %s; expected exactly %s%s", r+1, outcome, p, okOld, map[bool]string{true: " or " + okNew, false: ""}[target >= 0])
 			restore()
 			h.R.Sample = map[string]any{"history": history}
 			return
@@ -298,7 +298,7 @@ func runC08(h *Harness) {
 		h.Settle(2*n.Interval + time.Minute)
 	}
 	if p := loc.Pattern(n); p != fmt.Sprintf("v%d", final+1) {
-		h.Violation("C08.d-later-refresh-applies", "stuck:"+patClass(p)+":"+backend+":"+trigger+":after-"+strings.Join(uniqStr(history), ","), "after faults stopped, two refresh periods later the probes answer from %s, expected v%d (history %v)", p, final+1, history)
+		h.Violation("C08.d-later-refresh-applies", "stuck", "after faults stopped, two refresh periods later the probes answer from %s, expected v%d (history %v)", p, final+1, history)
 	}
 	h.R.Sample = map[string]any{"history": history, "backend": backend, "trigger": trigger, "readers": readers}
 	h.Cleanup(n)
